@@ -1542,6 +1542,9 @@ fn c17(r: &Runner) {
             let budget = if r.is_thorough() { 1200 } else { 160 };
             let mut v: Vec<BigUint> = if bits <= 8 { small_all(bits).iter().map(|x| big(x)).collect() } else { let mut s = pow2_sparse(bits); if s.len() < budget { s = pick(bits, budget, &[]).0; } s.iter().map(|x| big(x)).collect() };
             v.extend([m.clone(), &m + 1u32, &m * 256u32, (&m << 1) - 1u32]);
+            // longer than the limb storage AND with bits between BITS and 64 * LIMBS set (a truncating fast path must still mask)
+            let full = pow2(64 * nlimbs(bits));
+            v.extend([&m * 257u32, &full + &m, (&full << 8) - 1u32, (&full << 64) - 1u32, &full * 3u32 + (&full - 1u32)]);
             v.extend([BigUint::from(0x7fu32), BigUint::from(0x80u32), BigUint::from(63u32), BigUint::from(64u32), BigUint::from((1u32 << 14) - 1), BigUint::from(1u32 << 14), BigUint::from((1u32 << 30) - 1), BigUint::from(1u32 << 30)]);
             v.sort();
             v.dedup();
